@@ -16,8 +16,9 @@ Exclude ==
          ELSE (IF Ev.err = "blocked" THEN {"operation-does-not-terminate"} ELSE {})
               \cup (IF ToSet(Ev.processed) \cap ToSet(Ev.mustSkip) # {} THEN {"excluded-entry-processed"} ELSE {})
               \cup (IF Ev.err = "" /\ ~((ToSet(Ev.mustProcess) \ ToSet(Ev.across)) \subseteq ToSet(Ev.processed)) THEN {"unmatched-entry-skipped"} ELSE {})
-              \* a pattern that matches across the path separator ("x." on "x/y") although no single name contains a match
-              \cup (IF Ev.err = "" /\ ~((ToSet(Ev.mustProcess) \cap ToSet(Ev.across)) \subseteq ToSet(Ev.processed)) THEN {"pattern-matched-across-separator"} ELSE {})
+              \* a pattern that matches across the path separator ("x." on "x/y") although no single name contains a match: Copy does
+              \* that (it tests whole paths - a recorded finding); the operations that test names must not
+              \cup (IF Ev.err = "" /\ ~((ToSet(Ev.mustProcess) \cap ToSet(Ev.across)) \subseteq ToSet(Ev.processed)) THEN {IF Ev.call = "Copy" THEN "pattern-matched-across-separator" ELSE "pattern-matched-across-separator-outside-copy"} ELSE {})
               \cup (IF Ev.err \notin {"", "blocked"} THEN {"operation-failed"} ELSE {}))
     /\ l' = l + 1
 TraceSpec == l = 1 /\ [][Exclude]_l
